@@ -30,6 +30,21 @@ CLAIMED = {
         ref="4/C14", tech="Coq proof (container invariants, spec refinement) + extracted-model correspondence",
         note="float->integer rounding of derived capacities and the count-min bucket hashing are inputs computed "
              "by the harness with the code's own expressions."),
+    "C06": dict(
+        text="Theorems over every action sequence of the in-flight/fetch-task model (repaired code): at most one "
+             "registered task per key, every pending caller is registered with a live leader, resolving a task's "
+             "future strictly decreases a bounded measure and a quiescent state has no pending caller (never hangs), "
+             "failed/cancelled fetches cache nothing; kernel-evaluated scenarios for same-entry, error, cancel, donation. "
+             "Correspondence: exhaustive short + random scripts on a single-threaded tokio runtime, all five algorithms.",
+        ref="4/C06", tech="Coq proof (invariant over the transition system) + extracted-model correspondence",
+        note="one RawFetch::poll is one atomic step (single-threaded runtime); poll-internal races on a "
+             "multi-threaded runtime are not exhibited; the hybrid disk stage is get_or_fetch_inner's optional fetch."),
+    "C11": dict(
+        text="Theorems: callers waiting when insert(k,v) completes receive v; afterwards no sequence of fetch/disk "
+             "resolutions, failures, cancellations or new callers changes the cached value of k until k is explicitly "
+             "inserted/removed again. The pinned snapshot's model (fresh close flag, F3) is refuted by a kernel-checked witness.",
+        ref="4/C11", tech="Coq proof (invariant + frame lemma) + extracted-model correspondence",
+        note="as C06; the residual window inside one poll on a multi-threaded runtime is unmodelled."),
     "C17": dict(
         text="Theorem: for an arbitrary hash function, a lookup returns only a record whose key equals the key "
              "asked for, and colliding keys are both stored (generic shard/cache model). Correspondence with "
